@@ -151,6 +151,40 @@ pub fn signature_matches(sig: &str, sc: &Scenario, out: &RunOutput, v: &Violatio
             }
             hit
         }
+        // F29 seen by the state invariant: after the endpoint's FIN was put on the wire a snapshot
+        // shows the largest segment size lower than in the previous snapshot (an MTU probe was
+        // declared lost) and a send position below the segment in front of the FIN: the last
+        // data segment was taken back behind the FIN. With the peer's window closed at that
+        // moment nothing is in flight any more and no timer runs (F6), FIN included.
+        "probe-taken-back-after-fin-was-sent" => {
+            use crate::hist::Ev;
+            let mut fin_of: std::collections::HashMap<(std::net::SocketAddr, u16), u16> = Default::default();
+            let mut prev_max: std::collections::HashMap<(std::net::SocketAddr, u16), u16> = Default::default();
+            let mut hit = false;
+            for (t, ev) in &out.hist.evs {
+                if *t > v.t {
+                    break;
+                }
+                match ev {
+                    Ev::Emit(e) if e.real => {
+                        if let Some(p) = e.pkt.as_ref().filter(|p| p.typ == crate::codec::ST_FIN) {
+                            fin_of.entry((e.src, p.conn_id)).or_insert(p.seq);
+                        }
+                    }
+                    Ev::Probe(librqbit_utp::verif::ProbeEvent::ConnPoll(sn)) => {
+                        let k = (sn.key.local, sn.key.conn_id_send);
+                        if let (Some(f), Some(pm)) = (fin_of.get(&k), prev_max.get(&k)) {
+                            if sn.max_ss < *pm && crate::util::seq_lt(sn.last_sent_seq_nr, f.wrapping_sub(1)) {
+                                hit = true;
+                            }
+                        }
+                        prev_max.insert(k, sn.max_ss);
+                    }
+                    _ => {}
+                }
+            }
+            hit
+        }
         // F6: an endpoint has accepted-but-unsent data, the peer's last advertised window is
         // zero, nothing is in flight and NO timer is armed: it waits for a window update that
         // was lost (or whose sender is gone) forever. The violation must concern that node
